@@ -242,7 +242,8 @@ def spec_digest(spec):
     for k in sorted(spec.encoder_state):
         kind, st = spec.encoder_state[k]
         enc.append((k, getattr(kind, "value", str(kind)), tuple(str(c) for c in st.get("categories", ()))))
-    return (tuple(spec.column_names), tuple(enc), str(spec.output), bool(spec.ensure_full_rank))
+    names = tuple(spec.column_names) if spec.structure else ("<no recorded structure>", str(spec.formula))
+    return (names, tuple(enc), str(spec.output), bool(spec.ensure_full_rank))
 
 
 def fit(formula, tr, efr, out):
@@ -265,7 +266,7 @@ def repro(formula, tr, efr, out, evs):
         A = [r["A"] for r in rows]
         a = [r["a"] for r in rows]
         s += ("; ms.get_model_matrix(pandas.DataFrame({'A': %s, 'B': O(%r), 'a': %s}))"
-              % (("O(%r)" % A) if isinstance(A[0], str) else repr(A), [r["B"] for r in rows],
+              % (("O(%r)" % A) if (isinstance(A[0], str) or (ev[0] == "A" and ev[1] == "text") or ev[0] == "a") else repr(A), [r["B"] for r in rows],
                  ("O(%r)" % a) if isinstance(a[0], str) else repr(a)))
     return s
 
@@ -422,9 +423,14 @@ def drv_representations(c, ctx, col):
 # structured formulas whose parts share the factor A: every LEAF spec applied on its own
 
 STRUCTURED = {
-    # formula -> [(leaf label, accessor on the ModelMatrices, the leaf's own formula as known to ref_columns)]
-    "A + a | A:a": [("[0]", lambda mm: mm[0], "A + a"), ("[1]", lambda mm: mm[1], "A:a")],
-    "A ~ 0 + A + a": [("lhs", lambda mm: mm.lhs, "0 + A"), ("rhs", lambda mm: mm.rhs, "0 + A + a")],
+    # fitted formula -> [(label, how the spec to re-apply is obtained from the fit, its formula as known to ref_columns)]
+    # leaves of structured formulas, each used on its own
+    "A + a | A:a": [("[0]", lambda mm: mm[0].model_spec, "A + a"), ("[1]", lambda mm: mm[1].model_spec, "A:a")],
+    "A ~ 0 + A + a": [("lhs", lambda mm: mm.lhs.model_spec, "0 + A"), ("rhs", lambda mm: mm.rhs.model_spec, "0 + A + a")],
+    # specs DERIVED from the fitted one: the recorded kind and levels of the surviving factor A must survive too
+    "A:a": [("differentiate('a')", lambda mm: mm.model_spec.differentiate("a"), "0 + A")],          # d/da (1 + A:a) = 0 + A
+    "a + A:a": [("differentiate('a')", lambda mm: mm.model_spec.differentiate("a"), "A")],          # = 0 + 1 + A
+    "a + A": [("subset('A')", lambda mm: mm.model_spec.subset("A"), "A")],                          # = 1 + A
 }
 for _f in ("A + a", "0 + A + a"):
     VARIES[_f] = ["A", "a"]
@@ -443,12 +449,15 @@ def drv_structured(c, ctx, col):
     ev = choose_event(c, ctx, leaf_formula, "ev1")
     route = c.pick(ctx.get("routes", ROUTES[:1]))
     mm = model_matrix(formula, training_frame(tr), ensure_full_rank=efr, output=out)
-    spec = access(mm).model_spec
-    train_names = [str(x) for x in spec.column_names]
+    spec = access(mm)
     ref_names, _ = R.evaluate(ref_columns(leaf_formula, tr, efr), [])
-    if train_names != ref_names:
-        col.count("fit-structure-differs-from-reference (skipped)")
-        raise Skip()
+    if spec.structure:
+        train_names = [str(x) for x in spec.column_names]
+        if train_names != ref_names:
+            col.count("fit-structure-differs-from-reference (skipped)")
+            raise Skip()
+    else:  # a differentiated spec carries no recorded structure: the columns follow from the recorded levels
+        train_names = ref_names
     col.state(spec_digest(spec))
     frame, rows = followup(tr, ev)
     want, nontrivial = expectation(leaf_formula, tr, efr, ev, rows)
@@ -607,8 +616,20 @@ def subchecks(tier, seed):
           "trainings": [["y", "x"], ["z", "y", "x"]] if tier == "quick" else LEVEL_SETS,
           "ev1": f["ev1"] if tier != "quick" else {"A": text_events("A", "xyzw", 2) + A_NUMERIC[:2], "a": f["ev1"]["a"]},
           "routes": ROUTES}
+    # levels that are not text: integer codes in an object column; follow-ups bring the same codes as ints or as the
+    # strings that print the same ('1' is not the level 1: zero row + warning), plus an unseen code
+    codes = [1, 2, "1", "2", 4]
+    lt = {"outputs": ["pandas"] if tier == "quick" else ["pandas", "numpy", "sparse"],
+          "trainings": [[2, 1], [3, 2, 1]],
+          "formulas": [x for x in FORMULAS if "A" in VARIES[x]],
+          "ev1": {"A": text_events("A", codes, 2), "a": []}}
+    subs.append(Sub("level-types", drv_followup, lt, shard_depth=4,
+                    bounds={"formulas": lt["formulas"], "outputs": lt["outputs"], "training_A_columns (object dtype)": lt["trainings"],
+                            "followup_A": "every vector of length <= 2 over {1, 2, '1', '2', 4} (object dtype)",
+                            "ensure_full_rank": [True, False]}))
     subs.append(Sub("structured", drv_structured, st, shard_depth=5,
-                    bounds={"formulas": sorted(STRUCTURED), "leaves": {k: [l[0] for l in v] for k, v in STRUCTURED.items()},
+                    bounds={"formulas": sorted(STRUCTURED),
+                            "leaves / derived specs": {k: [l[0] for l in v] for k, v in STRUCTURED.items()},
                             "outputs": st["outputs"], "training_A_columns": st["trainings"], "routes": ROUTES,
                             "followups": {k: len(v) for k, v in st["ev1"].items()}, "ensure_full_rank": [True, False]}))
     quick = tier == "quick"
